@@ -708,13 +708,13 @@ class ImplOracle:
 def _hmac_source(ctx):
     """TJ.Props.C12Gen: the terms REGENERATED from src/tinyjambu-hmac.c (hmac, hmac_init, hmac_set_key, hmac_update, hmac_finalize) over the regenerated hash compute RFC 2104 HMAC"""
     import taint
-    ok, stats = taint.regenerate(ctx, ('TJ.Props.C12Gen',))
+    ok, stats = taint.regenerate(ctx, ('TJ.Props.C12Gen', 'TJ.Props.StreamGen'))
     ctx.extra_cov['minic'] = {k: stats.get(k) for k in ('functions', 'translated', 'errors', 'build_ok')}
     if stats.get('errors'): ctx.broken_proofs.append('tools/c2lean.py cannot translate the current sources: ' + '; '.join(stats['errors'][:3]))
-    elif not ok: ctx.broken_proofs.append('TJ.Props.C12Gen (regenerated tinyjambu_hmac and its callees = RFC 2104 over the library hash) no longer checks: ' + re.sub(r'\s+', ' ', stats.get('build_log_tail', ''))[-600:])
+    elif not ok: ctx.broken_proofs.append('TJ.Props.C12Gen / StreamGen (regenerated tinyjambu_hmac, the streaming entry points and their callees = RFC 2104 over the library hash) no longer check: ' + re.sub(r'\s+', ' ', stats.get('build_log_tail', ''))[-600:])
 
 def check_C12(ctx):
-    ctx.build(); _hmac_source(ctx); ctx.lean(extra_modules=['TJ.Props.C12Gen'])
+    ctx.build(); _hmac_source(ctx); ctx.lean(extra_modules=['TJ.Props.C12Gen', 'TJ.Props.StreamGen'])
     ctx.equality_streams.update({'hmac': 'TJ.Props.C12.hmac_rfc2104', 'm.histories': 'TJ.Props.C12.hmac_streaming_rfc2104'})
     g = ctx.g; cases = []
     for kl in list(range(0, 201)):
@@ -923,7 +923,8 @@ def _prng_history(g, obj, nops, sizes, limits, scripted=True):
     return lines, dl
 
 PR_SIZES = [0, 1, 31, 32, 33, 64, 100, 1025]
-PR_LIMITS = [0, 1, 31, 32, 33, 64, 100, 1024, 1048577, 5000000]
+# incl. the extremes of size_t: a limit within 31 of SIZE_MAX must clamp to 1 MiB, not wrap in `(limit + 31) / 32`
+PR_LIMITS = [0, 1, 31, 32, 33, 64, 100, 1024, 1048577, 5000000, 2 ** 32 - 1, 2 ** 32, 2 ** 63, 2 ** 64 - 32, 2 ** 64 - 31, 2 ** 64 - 1]
 
 def _limit_blocks(n):
     n = min(n, 1048576); b = (n + 31) // 32
